@@ -240,6 +240,12 @@ def run_comp(sc):
 # generator
 
 
+# values assigned to Observables: small ints (which CPython interns) and large ones (equal values are then
+# distinct objects, so an identity comparison instead of an equality comparison would show)
+def gen_val(R):
+    return R.choice([0, 1, 2, 0, 1, 2, 0, 1, 2, 1000, 1001])
+
+
 def gen_tree(R, depth, obs_keys, lower, allow_write, root=False):
     k = R.random()
     if depth == 0 or (not root and k < 0.22):
@@ -254,9 +260,31 @@ def gen_tree(R, depth, obs_keys, lower, allow_write, root=False):
     return ("read", o, n, [gen_tree(R, depth - 1, obs_keys, lower, allow_write) for _ in range(nb)])
 
 
+def gen_cycle_scenario(R):
+    """directed: a function that reads x, then reads another Computable that has to recompute at that very moment
+    (its input was just re-assigned), then assigns x — a cycle that must be rejected whatever happened in between"""
+    a, b, v = R.choice([0, 1, 2, 1000]), R.choice([1, 2, 1001]), R.choice([0, 1, 2])
+    if a == b:
+        b = 1001
+    inner = ("read", 0, 1, [("ret", 0), ("ret", 1), ("ret", 2)])
+    tail = ("write", 0, 0, v, ("ret", 3))
+    outer = ("read", 0, 0, [("readc", 0, [tail, tail, tail])] * 3)
+    lines = ["scenario comp 0.0.obs,0.1.obs,0.2.comp,0.3.comp -",
+             f"assign 0 1 {a}", f"define 0 0 2 {fmt_tree(inner)}", "read 0",
+             f"assign 0 0 {R.choice([0, 1, 2])}"]
+    if R.random() < 0.8:
+        lines.append(f"assign 0 1 {b}")     # the inner Computable is now dirty and really changed
+    lines.append(f"define 1 0 3 {fmt_tree(outer)}")
+    for _ in range(R.randrange(0, 4)):
+        lines.append(R.choice([f"assign 0 1 {gen_val(R)}", f"assign 0 0 {gen_val(R)}", "read 1", "read 0"]))
+    return core.Scenario(lines, {"mode": "cycle"})
+
+
 def gen_comp_scenario(R, mode=None, n_ops=None):
     """mode: 'pure' (quantifier of C17), 'write' (functions that assign: cycle detection),
     'hread' (user handlers that read Computables while notified: G7 territory)"""
+    if mode is None and n_ops is None and R.random() < 0.04:
+        return gen_cycle_scenario(R)
     mode = mode or R.choice(["pure"] * 8 + ["write", "hread"])
     n_owner = 1 if mode == "hread" else R.choice([1, 2, 2])
     n_obs = R.randrange(2, 5)
@@ -294,7 +322,7 @@ def gen_comp_scenario(R, mode=None, n_ops=None):
 
     for _ in range(R.randrange(0, 3)):
         o, n = R.choice(obs_keys)
-        lines.append(f"assign {o} {n} {R.randrange(0, 3)}")
+        lines.append(f"assign {o} {n} {gen_val(R)}")
     define()
     for _ in range(total):
         k = R.random()
@@ -302,7 +330,7 @@ def gen_comp_scenario(R, mode=None, n_ops=None):
             define()
         elif k < 0.62:
             o, n = R.choice(obs_keys)
-            lines.append(f"assign {o} {n} {R.randrange(0, 3)}")
+            lines.append(f"assign {o} {n} {gen_val(R)}")
         elif k < 0.90:
             lines.append(f"read {R.choice(defined)}")
         elif k < 0.96:
@@ -401,9 +429,12 @@ def oracle_comp(sc, obs):
     comps = {}
     writes = False
     last_reads = {}      # c -> reads of its last completed evaluation, or None after a failed one
-    stack = []           # evaluations in progress: [c, reads]
+    stack = []           # evaluations in progress: [c, reads, keys assigned so far by this evaluation (after which read)]
+    hread_seen = False   # a user handler has read a Computable while being notified (the history of finding G7)
     for ev in tr:
         k = ev[0]
+        if k == "hread":
+            hread_seen = True
         if k == "op":
             w = ev[1].split()
             if w[0] == "define":
@@ -420,17 +451,25 @@ def oracle_comp(sc, obs):
                     if now != v:
                         changed = True
                 if not changed:
-                    bad.append(f"needless: function of {c} re-ran during `{' '.join(cur_op)}` although every value it read last time "
+                    bad.append(f"needless{'-after-handler-read' if hread_seen else ''}: function of {c} re-ran during `{' '.join(cur_op)}` although every value it read last time "
                                f"({last_reads[c]}) is unchanged")
-            stack.append([c, []])
+            stack.append([c, [], []])
         elif k == "eval-read":
             stack[-1][1].append((ev[2], ev[3]))
         elif k == "eval-write":
             _, c, key, v, how = ev
-            if how == "done" and any(r == key for r, _ in stack[-1][1]):
-                bad.append(f"cycle-not-rejected: function of {c} read {key} and then assigned it without being rejected")
+            reads = [r for r, _ in stack[-1][1]]
+            if how == "done" and key in reads:
+                # did this function assign ANOTHER Observable after it first read `key`?  (history of finding G10:
+                # any assignment clears the record of what was read)
+                first = reads.index(key)
+                between = [kk for kk, nreads in stack[-1][2] if kk != key and nreads > first]
+                bad.append(f"cycle-not-rejected{'-after-write' if between else ''}: function of {c} read {key} and then assigned it "
+                           f"without being rejected" + (f" (it assigned {between[0]} in between)" if between else ""))
+            if how == "done":
+                stack[-1][2].append((key, len(reads)))
         elif k == "eval-end":
-            c, reads = stack.pop()
+            c, reads, _ = stack.pop()
             last_reads[c] = None if ev[2] == "exc" else reads
         elif k == "done":
             head, store = ev[1], ev[2]
@@ -438,7 +477,7 @@ def oracle_comp(sc, obs):
                 c = int(cur_op[1])
                 want = spec_eval(comps, store, c)
                 if want != "exc" and str(want) != head.split()[1]:
-                    bad.append(f"stale: `{' '.join(cur_op)}` returned {head.split()[1]}, its function evaluated now gives {want}")
+                    bad.append(f"stale{'-after-handler-read' if hread_seen else ''}: `{' '.join(cur_op)}` returned {head.split()[1]}, its function evaluated now gives {want}")
     return bad
 
 
